@@ -145,7 +145,14 @@ func (a *anchors) firstWriteData(r *report.Report) {
 	c := calls[0]
 	pos := instrPos(p, c)
 	// every emission of a PES packet comes after it
-	wps, _ := callsTo(f, a.writePacket)
+	var wps []*ssa.Call
+	for _, b := range f.Blocks {
+		for _, in := range b.Instrs {
+			if w, _, ok := a.packetWriteOf(in, recv(f)); ok {
+				wps = append(wps, w)
+			}
+		}
+	}
 	r.Floor(RuleFirst, "writePacket calls in WriteData", len(wps), 1)
 	var late []string
 	for _, w := range wps {
